@@ -329,6 +329,30 @@ def extract():
     else:
         fail("buffers.atomic.waiting_fields", "fields of Waiting changed")
 
+    # ---- UnorderedReceiver: one mutex around ALL state, held for the whole poll => a poll is atomic --
+    rrel = "helpers/buffers/unordered_receiver.rs"
+    rt = read(rrel)
+    rcut = re.search(r"#\[cfg\(all\(test, any\(unit_test, feature = \"shuttle\"\)\)\)\]\s*mod test \{", rt)
+    rcode = re.sub(r"//[^\n]*", "", rt[:rcut.start()] if rcut else rt)
+    for name, pat in (
+        ("receiver.state_in_one_mutex", r"pub struct UnorderedReceiver<S, C>\s*where\s*S: Stream<Item = C>,\s*C: AsRef<\[u8\]>,\s*\{\s*inner: Arc<Mutex<OperatingState<S, C>>>,\s*\}"),
+        ("receiver.future_shares_it", r"pub struct Receiver<S, C, M>\s*where.*?\{\s*i: usize,\s*shared_state: Arc<Mutex<OperatingState<S, C>>>,\s*_marker: PhantomData<M>,\s*\}"),
+        ("receiver.poll_holds_lock", r"fn poll\(self: Pin<&mut Self>, cx: &mut Context<'_>\) -> Poll<Self::Output> \{\s*let this = self\.as_ref\(\);\s*let mut recv = this\.shared_state\.lock\(\)\.unwrap\(\);\s*if recv\.is_next\(this\.i\) \{\s*recv\.poll_next\(cx\)\s*\} else \{\s*recv\.add_waker\(this\.i, cx\.waker\(\)\);\s*Poll::Pending\s*\}\s*\}"),
+    ):
+        mm = re.search(pat, rcode, re.S)
+        if mm:
+            record("buffers.atomic." + name, rrel, rcode, mm, "as modelled (poll = one critical section)")
+        else:
+            fail("buffers.atomic." + name, "UnorderedReceiver no longer keeps all its state behind one mutex held for the whole poll; the poll-level model is no longer the atomic model")
+    mm = re.search(r"Atomic[A-Z]\w*|UnsafeCell|RwLock|static mut", rcode)
+    if mm:
+        fail("buffers.atomic.receiver.no_other_shared_state", f"unordered_receiver.rs now uses `{mm.group(0)}` outside the mutex")
+    else:
+        class _M0:
+            def start(self): return 0
+            def group(self, _): return ""
+        record("buffers.atomic.receiver.no_other_shared_state", rrel, rcode, _M0(), "no atomics / cells / rwlocks outside the test module")
+
     lines = ["/-! GENERATED by tools/extract.py (tools/extractors/c14_sender_atomic.py) from",
              "ipa-core/src/helpers/buffers/ordering_sender.rs (`WaitingShard::{wake, add}`) — do not edit. -/",
              "set_option linter.unusedVariables false",
